@@ -5,7 +5,7 @@ From SVC Require Import Base.AMap Base.Res Base.Dec Model.Types Model.Pricing
   Model.Handlers Model.EndBlock Model.Step Proofs.Inv Proofs.Lemmas Proofs.ReqLemmas
   Proofs.CtxOps Proofs.InvSched Proofs.InvCtx Proofs.InvAll Proofs.StepSpecs_ctx
   Proofs.TraceBase Proofs.C10Proofs Proofs.TraceBatch Proofs.ReachRun Proofs.TraceCadence
-  Proofs.GapOrigin Proofs.GapC09 Proofs.GapC09b Proofs.BatchEx.
+  Proofs.GapOrigin Proofs.GapC09 Proofs.GapC09b Proofs.GapC06 Proofs.BatchEx.
 Import ListNotations.
 Open Scope Z_scope.
 
@@ -276,6 +276,99 @@ Proof.
       * destruct Hcnt as [E|(_ & Hr & _)]; [congruence|contradiction].
       * destruct Hst as [E|(Hr & _)]; [exact E|contradiction].
     + destruct Htr as [Hc|(Hr & _)]; [exact Hc|contradiction].
+Qed.
+
+(* the expiry phase leaves the new-batch pointer of a context that is not due for expiry alone *)
+Lemma fold_expire_newq_h cfg l s c :
+  wf_cfg cfg -> Inv cfg s -> height s < HEIGHT_BOUND -> NoDup l ->
+  (forall a, In a l -> In (height s, a) (expq s)) -> ~ In c l ->
+  get c (newq_h (fold_left (expire_one cfg) l s)) = get c (newq_h s).
+Proof.
+  intros Hcfg. revert s. induction l as [|a l IH]; intros s Hi Hb Hn Hl Hni; cbn [fold_left]; [reflexivity|].
+  inversion Hn as [|? ? Hna Hn']; subst.
+  assert (Hda : In (height s, a) (expq s)) by (apply Hl; now left).
+  pose proof (Inv_expire_one cfg s a Hcfg Hi Hda Hb) as Hi1.
+  pose proof (height_expire_one cfg s a Hcfg Hi Hda Hb) as Eh.
+  pose proof (expq_after_expire_one cfg s a Hcfg Hi Hda Hb) as Eq.
+  destruct (expire_one_spec cfg s a Hcfg Hi Hda Hb) as (rc0 & rc1 & _ & _ & _ & _ & Ht & _).
+  rewrite IH; try assumption.
+  - apply (t_newq_h _ _ _ Ht). intros ->. apply Hni. now left.
+  - now rewrite Eh.
+  - intros c0 Hc0. rewrite Eh. apply Eq. split; [apply Hl; now right|]. intros ->. contradiction.
+  - intros Hin. apply Hni. now right.
+Qed.
+
+(* the first batch, DECIDED: same situation as first_batch_trace; the context is still due, with
+   the same record, after the expiry phase of that EndBlock, and if its consumer has no other
+   context due in this block the outcome is the one computed by [new_outcome] on the post-expiry
+   state (C06_end_block_outcome): in particular Paused-for-funds exactly when
+   [new_outcome sx rc2 = OPausedFunds], i.e. not super mode and balance < total price *)
+Theorem first_batch_decided cfg s0 o s1 c msgs dt :
+  wf_cfg cfg -> Reach cfg s0 -> wf_op s0 o -> creates o c -> handle cfg s0 o = Ok s1 ->
+  wf_run cfg s1 msgs -> Forall no_end_block msgs ->
+  0 <= dt -> height s0 < HEIGHT_BOUND ->
+  let s2 := run cfg s1 msgs in
+  let sx := fold_left (expire_one cfg) (due (expq s2) (height s2)) s2 in
+  let s3 := end_block cfg s2 dt in
+  exists rc2, get c (ctxs s2) = Some rc2 /\ c_counter rc2 = 0 /\ height s2 = height s0
+    /\ get c (ctxs sx) = Some rc2 /\ In (height s2, c) (newq sx)
+    /\ ((forall c' rc', In (height s2, c') (newq sx) -> c' <> c -> get c' (ctxs sx) = Some rc' ->
+                        c_cons rc' <> c_cons rc2) ->
+        let E := filter_providers sx rc2 (c_provs rc2) in
+        let charge := if c_super rc2 then 0 else sum_prices E in
+        let kept := (forall r, rid_ctx r = c -> get r (reqs s3) = get r (reqs sx))
+                    /\ bal s3 (User (c_cons rc2)) = bal sx (User (c_cons rc2)) in
+        match new_outcome sx rc2 with
+        | ONotRunning => get c (ctxs s3) = Some rc2 /\ kept
+        | ORemoved => get c (ctxs s3) = None /\ kept
+        | OSkipped => get c (ctxs s3) = Some (bump rc2 0) /\ kept
+        | OPausedFunds => get c (ctxs s3) = Some (paused_ctx rc2) /\ kept
+        | OIssued =>
+            get c (ctxs s3) = Some (bump rc2 (len E))
+            /\ (forall k p price, nth_error E k = Some (p, price) ->
+                  get (c, 1, height s0, Z.of_nat k) (reqs s3)
+                  = Some (mkReq p (if c_super rc2 then 0 else price) (height s0 + c_timeout rc2) true))
+            /\ bal s3 (User (c_cons rc2)) = bal sx (User (c_cons rc2)) - charge
+            /\ 0 <= charge <= bal sx (User (c_cons rc2))
+        end).
+Proof.
+  intros Hcfg HR0 Ho Hcr E01 Hw Hf Hdt Hb. cbv zeta.
+  assert (HR1 : Reach cfg s1).
+  { assert (E : s1 = fst (step cfg s0 o)) by (unfold step; now rewrite E01). rewrite E. now apply Reach_step. }
+  assert (HJ1 : J c (height s0) s1).
+  { assert (Hshape : (exists svc provs cons input cap timeout super rep freq total iok ok,
+                o = OCall c svc provs cons input cap timeout super rep freq total iok ok)
+             \/ (exists svc provs cons input cap timeout super rep freq total thr md iok,
+                o = OModCall c svc provs cons input cap timeout super rep freq total thr md iok)).
+    { destruct o; cbn [creates] in Hcr; try contradiction; subst; [left|right]; repeat eexists. }
+    destruct (C10_created_queued cfg s0 o s1 c E01 Hshape) as (rc & G & Hc & _ & _ & Hn & Hh & _).
+    exists rc. auto. }
+  pose proof (J_run cfg Hcfg c (height s0) msgs s1 HR1 Hw Hf HJ1) as (rc2 & G2 & Hc2 & Hn2 & Hh2).
+  set (s2 := run cfg s1 msgs) in *.
+  pose proof (reach_run cfg s1 msgs HR1 Hw) as HR2.
+  pose proof (Reach_Inv cfg s2 Hcfg HR2) as HI2.
+  assert (Hb2 : height s2 < HEIGHT_BOUND) by lia.
+  exists rc2. split; [exact G2|]. split; [exact Hc2|]. split; [exact Hh2|].
+  assert (Hdue : In (height s2, c) (newq s2)).
+  { destruct (inv_sched _ _ HI2) as (_ & S2 & _). apply S2. now rewrite Hh2. }
+  destruct (due_new cfg s2 c HI2 Hdue) as (_ & _ & _ & Ee).
+  set (l1 := due (expq s2) (height s2)).
+  assert (Hn1 : NoDup l1) by (apply NoDup_due; apply (inv_wf _ _ HI2)).
+  assert (Hl1 : forall a, In a l1 -> In (height s2, a) (expq s2)) by (intros a; apply In_due).
+  assert (Hni : ~ In c l1).
+  { intros Hin. destruct (due_exp cfg s2 c HI2 (Hl1 _ Hin)) as (_ & _ & Ex & _). congruence. }
+  destruct (fold_expire_phase cfg l1 s2 Hcfg HI2 Hb2 Hn1 Hl1) as (Ix & Hx & _).
+  destruct (fold_expire_ctx cfg l1 s2 c Hcfg HI2 Hb2 Hn1 Hl1) as (P1 & _).
+  pose proof (fold_expire_newq_h cfg l1 s2 c Hcfg HI2 Hb2 Hn1 Hl1 Hni) as Enq.
+  set (sx := fold_left (expire_one cfg) l1 s2) in *.
+  assert (Gx : get c (ctxs sx) = Some rc2) by (rewrite (P1 Hni); exact G2).
+  assert (Hduex : In (height s2, c) (newq sx)).
+  { destruct (inv_sched _ _ Ix) as (_ & S2 & _). apply S2. rewrite Enq, Hn2. now rewrite Hh2. }
+  split; [exact Gx|]. split; [exact Hduex|].
+  intros Hoth.
+  pose proof (end_block_outcome cfg s2 dt c rc2 Hcfg HI2 Hb2) as H. cbv zeta in H.
+  fold l1 in H. fold sx in H. specialize (H Hduex Gx Hoth).
+  rewrite Hc2, Hh2 in H. exact H.
 Qed.
 
 (* ------------------------------------------------------------------ *)
